@@ -230,3 +230,5 @@ def summarize(results, tier):
         "samples": samples[:6],
         "exhaustive": True,
     }
+
+RULE += ' Session 4: partial-callable pass - every term that holds a choice (coalesce / switch / case / dispatching dataset), depth 1 completely and depth 2 over 11 choice-bearing contexts (thorough: all), with each user callable raising ValueError / KeyError, against the reference run with the same fault script.'
